@@ -65,6 +65,14 @@ static unsigned int assemble_const(unsigned long constant,
  */
 static bool check_zero(struct instr *instruc, unsigned long saved_imm,
                        instr_type type) {
+  // only a 64-bit destination can need more than the 4 immediate bytes
+  unsigned int opd0_mode = instruc->opd[0].reg & MODE_MASK;
+  bool dest64 = instruc->mem_disp
+                    ? !(instruc->keyword.is_byte || instruc->keyword.is_word ||
+                        instruc->keyword.is_dword)
+                    : (opd0_mode == reg64 || opd0_mode == ext64);
+  if (!dest64)
+    return false;
   // check for signed 32bit overflow
   if (IN_RANGE(saved_imm, NEG32BIT_CHECK, MAX_UNSIGNED_32BIT) &&
       !instruc->reduced_imm && type != CONTROL_FLOW) {
